@@ -342,6 +342,10 @@ class PaxosNode(Entity):
                 del self._proposal_futures[original_ballot]
             self._proposed_values[new_number] = value
             del self._proposed_values[original_ballot]
+            # The old ballot is given up: late Promises / Accepteds for it must
+            # not start its phase 2 or decide it (there is no value left for it).
+            self._phase1_responses.pop(original_ballot, None)
+            self._phase2_responses.pop(original_ballot, None)
             self._phase1_responses[new_number] = []
             self._phase2_responses[new_number] = 0
 
@@ -441,7 +445,9 @@ class PaxosNode(Entity):
         self._accepts_received += 1
 
         if ballot_number not in self._phase2_responses:
-            self._phase2_responses[ballot_number] = 0
+            # Not a ballot this node is running: never started here, or given
+            # up by a retry (its value has moved on to the new ballot).
+            return []
         self._phase2_responses[ballot_number] += 1
 
         if self._phase2_responses[ballot_number] >= self.quorum_size and not self._decided:
